@@ -108,7 +108,7 @@ def _hybrid_bitpacked(vals, width):
     return _uleb((groups << 1) | 1) + bits.to_bytes(groups * width, "little")
 
 
-def build_dict(path, dictionary, indices, width, nulls=None, optional=False, pages=1):
+def build_dict(path, dictionary, indices, width, nulls=None, optional=False, pages=1, stats_null_count="absent"):
     """flat INT64 column, data page v1, RLE_DICTIONARY: a PLAIN dictionary page followed by `pages` data pages whose
     indices are one bit-packed run of the given width; nulls (list of bool per row) only when optional"""
     from fastparquet import parquet_thrift as pt
@@ -138,9 +138,14 @@ def build_dict(path, dictionary, indices, width, nulls=None, optional=False, pag
                                                               repetition_level_encoding=3, i32=1), i32=1)
         data += bytes(ph.to_bytes()) + body
     size = len(data) - start
+    extra = {}
+    if stats_null_count != "absent":
+        # chunk statistics as another writer may store them (null_count is optional in the format)
+        extra["statistics"] = pt.Statistics(null_count=stats_null_count, max=struct.pack("<q", max(dictionary)),
+                                            min=struct.pack("<q", min(dictionary)))
     md = pt.ColumnMetaData(type=2, encodings=[0, 3, 8], path_in_schema=["x"], codec=0, num_values=n,
                            total_uncompressed_size=size, total_compressed_size=size, data_page_offset=data_start,
-                           dictionary_page_offset=start, i32list=[1, 4])
+                           dictionary_page_offset=start, i32list=[1, 4], **extra)
     rg = pt.RowGroup(columns=[pt.ColumnChunk(file_offset=start, meta_data=md)], total_byte_size=size, num_rows=n)
     schema = [pt.SchemaElement(name="schema", num_children=1),
               pt.SchemaElement(name="x", type=2, repetition_type=1 if optional else 0)]
